@@ -180,6 +180,18 @@ def run():
     need("iflength==0||cursor+ENTRY_HEADER_SIZEasu64+length>size{", wb, "wal: length test")
     need("cursor+=ENTRY_HEADER_SIZEasu64+length;", wb, "wal: advance")
 
+    ab = squash(fn_body(wl, "append_entry"))
+    need("ifpayload_len>u32::MAXasusize{", ab, "wal append: payload size test")
+    need("letentry_size=ENTRY_HEADER_SIZEasu64+payload_lenasu64;ifentry_size>self.region_size{", ab, "wal append: entry size test")
+    need("ifself.pending_bytes+entry_size>self.region_size{", ab, "wal append: capacity test")
+    need("letwrapping=self.write_head+entry_size>self.region_size;ifwrapping{ifself.pending_bytes>0{", ab, "wal append: wrap test")
+    if "letnext_sequence=self.sequence+1;" in ab:
+        out.append("def WAL_APPEND_SEQ_CHECKED : Bool := false")
+    elif "letnext_sequence=self.sequence.checked_add(1).ok_or_else(" in ab:
+        out.append("def WAL_APPEND_SEQ_CHECKED : Bool := true")
+    else:
+        raise TranslateError("wal append_entry: next_sequence computation not recognised")
+
     # ---- memories track / logic mesh headers
     mt = read("src/types/memories_track.rs")
     lm = read("src/types/logic_mesh.rs")
